@@ -2,7 +2,8 @@
 (* Inbound header validation on a server: every catalogue block as request HEADERS (then again as trailers  *)
 (* or as a second request), including undecodable and oversized blocks.                                     *)
 EXTENDS Scn
-Names == DOMAIN HL
+\* (the sized lists of the catalogue belong to MC_BigC / MC_BigS)
+Names == {n \in DOMAIN HL : BL0[n] < 1000}
 mcRoles == {"s"}
 mcCallsC == {}
 mcCallsS == {}
